@@ -52,6 +52,8 @@ def run(ck: vlib.Check):
         # string-table layouts: ids pointing inside a longer string (with a later stand-alone twin), and an id whose
         # offset points into the header (below the string data)
         opts.update([{}, {"interior_ids": 1.0}, {"header_ptr": True}, {"interior_ids": 1.0, "header_ptr": True}, {}][i % 5])
+        if i % 4 == 1:
+            opts["degenerate_locs"] = True
         cases.append((f"gen:{form}:{i}", SC.MapGen(rng, form, **opts).build()))
     known, _ = vlib.load_known_findings(PROP)
     known_keys = {f["key"]: f["text"] for f in known}
